@@ -102,7 +102,7 @@ class Main(Suite):
     name = "main"
     go_cmd = "c08"
     coq_imports = "From GoGit Require Import Model.PackParse."
-    quick_n = 40
+    quick_n = 32
     thorough_n = 600
     coq_chunk = 6
 
